@@ -323,6 +323,52 @@ def ops_on(e, mode="full", rich=True):
                         rev = ((b, bv), (a, form)) if list(t).index(a) < list(t).index(b) else ((a, form), (b, bv))
                         out.append(("affine:uses-key-bound-to-" + bl + "-ordered", ("osubs", e, rev)))
 
+    # ---- short histories: ONE live affine expression object (held by the harness, never rebuilt) substituted
+    #      successively into different Gaussians; every result is compared with the dense reference on its own
+    if extra:
+        a, sa = reals[0]
+        rdesc = tuple((n, "r", s) for n, s in reals)
+        nb = ("G", 9, rdesc, dim)  # no batch input
+        ob = ("G", 10, ((l, "b", 3),) + rdesc, dim)  # another batch input
+        kb = ("G", 11, rdesc[:1] + ((k, "b", 2),) + rdesc[1:], max(dim - 1, 1))
+        if sa == ():
+            hforms = [("scale", u), ("matvec", u, (2,), 20, ()), ("sum2", u, v)]
+        elif len(sa) == 1:
+            hforms = [("scale", u), ("matvec", u, (3,), 20, ()), ("sum2", u, v)]
+        else:
+            hforms = [("scale", u), ("matvec", u, (1,) + sa[1:], 20, ())]
+        if not rich:
+            hforms = hforms[:2]
+        for hf in hforms:
+
+            def S(g):
+                return ("subs", g, ((a, hf),))
+
+            if batch:
+                first = ("subs", e, ((batch[0][0], ("int", 0)),))
+                hs = [
+                    ("batch-then-none", (S(e), S(nb))),
+                    ("none-then-batch", (S(nb), S(e))),
+                    ("batch-then-other-batch", (S(e), S(ob))),
+                    ("other-batch-then-batch", (S(ob), S(e))),
+                    ("batch-then-indexed", (S(e), S(first))),
+                    ("three-steps", (S(ob), S(nb), S(e))),
+                ]
+            else:
+                hs = [
+                    ("none-then-batch", (S(e), S(ob))),
+                    ("batch-then-none", (S(ob), S(e))),
+                    ("batch-then-other-batch", (S(kb), S(ob))),
+                    ("three-steps", (S(ob), S(e), S(kb))),
+                ]
+            hs.append(("same-twice", (S(e), S(e))))
+            for hl, steps in hs:
+                out.append(("history:" + hl, ("hist", steps)))
+            for m, sm in reals[1:]:
+                if sm == sa:
+                    out.append(("history:same-object-two-keys", ("hist", (("subs", e, ((a, hf), (m, hf))),))))
+                    break
+
     if len(reals) >= 2:
         (n0, s0), (n1, s1) = reals[0], reals[1]
         if s0 == s1 and full:
@@ -425,6 +471,8 @@ def _prune(items, per=1):
     """first ``per`` terms per (label, sorted real shapes, number of batch inputs)."""
     seen, out = {}, []
     for label, e in items:
+        if e[0] == "hist":  # histories are terminal: they are not operands of further operations
+            continue
         reals, batch = sig_class(e)
         key = (label, tuple(sorted(reals)), len(batch))
         if seen.get(key, 0) < per:
@@ -451,6 +499,7 @@ POOLS = {
             "subs-int": ([(2,), (1,), (3,), (2, 3), (2, 2)], "two"),
             "rename": ([(), (2,), (2, 2), (2, 3)], "few"),
             "affine": ([(), (2,), (2, 3)], "few"),
+            "history": ([(), (2,), (2, 3)], "few"),
             "align": ([(), (2,), (2, 2), (2, 3)], "two"),
             "compress": ([(), (2,), (1,), (2, 3), (3, 2)], "all"),
             "cat": ([(2,), (1,), (1, 2), (2, 3)], "few"),
@@ -469,6 +518,7 @@ POOLS = {
             "subs-int": (_T10[1:], "class"),
             "rename": (_T10, "class"),
             "affine": ([(), (1,), (2,), (2, 3), (2, 2), (3, 1)], "class"),
+            "history": ([(), (1,), (2,), (2, 3), (2, 2)], "few"),
             "align": ([(), (2,), (3,), (2, 2), (2, 3)], "few"),
             "compress": (batch_sigs(), "all"),
             "cat": (_T10[1:], "class"),
@@ -536,7 +586,15 @@ def _cases(tier):
         for label, e2 in nxt:
             out.append([label, depth, e2])
         level = _prune(nxt, per=1)
-    return out
+    # histories that do not involve the operand itself repeat across operands: keep the first of each
+    seen, uniq = set(), []
+    for c in out:
+        if c[2][0] == "hist":
+            if c[2] in seen:
+                continue
+            seen.add(c[2])
+        uniq.append(c)
+    return uniq
 
 
 def bounds(tier):
@@ -581,6 +639,8 @@ def short(e):
         return str(e[1])
     if tag == "add":
         return "(%s + %s)" % (short(e[1]), short(e[2]))
+    if tag == "hist":
+        return "history[" + "  THEN  ".join(short(x) for x in e[1]) + "]"
     if tag == "lin":
         return "(" + " + ".join("%g*%s" % (c, n) for n, sh, c in e[1]) + ")"
     if tag == "subs":
@@ -610,7 +670,19 @@ def _fin(inputs):
     return OrderedDict((n, _dom((k, d))) for n, k, d in inputs)
 
 
+_HELD = None  # during a "hist" case: {(value descriptor, domain): the ONE live funsor object of that affine expression}
+
+
 def build_value(val, target_dom, seed):
+    if _HELD is not None and val[0] in _AFFINE:
+        key = (val, target_dom)
+        if key not in _HELD:
+            _HELD[key] = _build_value(val, target_dom, seed)
+        return _HELD[key]
+    return _build_value(val, target_dom, seed)
+
+
+def _build_value(val, target_dom, seed):
     from funsor.domains import Reals
     from funsor.tensor import Tensor
     from funsor.terms import Slice, Variable
@@ -958,6 +1030,9 @@ def subterms(e):
     elif tag == "cat":
         for p in e[3]:
             out += subterms(p)
+    elif tag == "hist":
+        for p in e[1]:
+            out += subterms(p)
     out.append(e)
     return out
 
@@ -1073,8 +1148,91 @@ def features_of(e, label):
 # the check
 
 
+def worker_init():
+    """Called once per worker by core: park everything inherited from the parent (the case list ...) in the permanent
+    generation so that the explicit gc.collect() of history cases only looks at objects created since."""
+    import gc
+
+    gc.collect()
+    gc.freeze()
+
+
+def hist_snippet(steps, seed):
+    """Stand-alone program of a history: the affine expression is built once and reused."""
+    vals = {}
+    for st in steps:
+        inner = G.ty(st[1])
+        for n, v in st[2]:
+            if v[0] in _AFFINE:
+                vals[value_code(v, inner[n], seed)] = "aff%d" % len(vals) if value_code(v, inner[n], seed) not in vals else vals[value_code(v, inner[n], seed)]
+    lines = [SNIPPET_HEADER]
+    for vc, name in vals.items():
+        lines.append("%s = %s   # ONE live object, substituted several times" % (name, vc))
+    for j, st in enumerate(steps):
+        c = code(st, seed)
+        for vc, name in vals.items():
+            c = c.replace(vc, name)
+        lines.append("r%d = %s" % (j, c))
+        lines.append("print('step %d:', type(r%d).__name__, dict(r%d.inputs))" % (j, j, j))
+    return "\n".join(lines)
+
+
+def check_history(label, depth, e, seed):
+    """Steps are executed in order with the affine values held alive in _HELD; each result is checked on its own."""
+    import gc
+
+    global _HELD
+    key = repr(e)
+    steps = e[1]
+    try:
+        for st in steps:
+            G.ty(st)
+    except G.IllTyped as ex:
+        return core.skip(key, "ill-typed:" + str(ex)[:40])
+    n = size(e)
+    gc.collect()  # no stale objects of an earlier case survive in the hash-cons tables
+    _HELD = {}
+    try:
+        nontrivial, heads = True, []
+        for j, st in enumerate(steps):
+            kind, msg, info = evaluate(st, seed)
+            heads.append(str(info.get("head")))
+            if kind == "ok-constant":
+                nontrivial = False
+            elif kind.startswith("decline"):
+                return core.decline(key, site_of(st) + "|history-step-%d|" % j + kind.split(":", 1)[1], transitions=n)
+            elif kind.startswith("violation"):
+                # does the same step pass when the expression object is fresh?
+                _HELD = {}
+                gc.collect()
+                alone, _, _ = evaluate(st, seed)
+                f, detail = features_of(st, label)
+                f["what"] = kind.split(":", 1)[1]
+                f["history_dependent"] = not alone.startswith("violation")
+                f["first_step"] = j == 0
+                detail["step"] = j
+                return core.violation(
+                    key,
+                    site_of(st),
+                    "%s at step %d of a history that re-uses one affine expression object (the same step alone: %s): %s\n  %s"
+                    % (kind, j, alone, msg, short(e)),
+                    [label, depth, e],
+                    f,
+                    hist_snippet(steps, seed)
+                    + "\n# step %d: expected inputs %s; at %s %s reference %r, funsor %r"
+                    % (j, dict(G.ty(st)), {k: np.asarray(v).tolist() for k, v in (info.get("point") or {}).items()}, info.get("bidx"), info.get("expected"), info.get("actual")),
+                    extra={"minimal": st, "detail": detail},
+                    transitions=n,
+                )
+        return core.ok(key, nontrivial, "ok:%s:%s" % (label.split(" > ")[-1], "+".join(heads)), transitions=n)
+    finally:
+        _HELD = None
+
+
 def check(case, seed):
     label, depth, e = case[0], case[1], tuplify(case[2])
+    if e[0] == "hist":
+        return check_history(label, depth, e, seed)
     key = repr(e)
     try:
         G.ty(e)
